@@ -374,6 +374,11 @@ class Engine(
             # different engine; it must not be wrapped in one of this engine's
             # Select markers.
             return kept  # type: ignore[return-value]
+        if kept is not None and (rhs if kept is lhs else lhs).engine != self:
+            # The ignored join identity operand belongs to a different engine;
+            # it must not be conformed (wrapped in one of this engine's Select
+            # markers) either.
+            return self.conform(kept)
         conformed_lhs = self.conform(lhs)
         conformed_rhs = self.conform(rhs)
         return self._append_binary_to_select(operation, conformed_lhs, conformed_rhs)
